@@ -596,10 +596,44 @@ def eval_solid(ctx, case):
     if not classify(ctx, cls, case, F, E, tol, win, zero_mask, rho,
                     "amplitude differs from density * integral of exp(-i q.r) over the solid"):
         return
+    spec_tie(ctx, case, Q, rho, E, tol)
     consequences(ctx, cls, case, Q, rho, F, tol, win,
                  lambda QQ, r: np.array(p.compute_form_factor_amplitude(QQ, density=r), dtype=complex),
                  lambda t: build_solid(case, shift=t), rmax, vol, lambda QQ, t: QQ @ t,
                  lambda t: solid_bounds(geom, Q, vol, rmax + float(np.linalg.norm(t))))
+
+
+def spec_tie(ctx, case, Q, rho, E, tol):
+    """the Lean specification closed forms (driver, Float) against the Python oracle on the same solid"""
+    if case.get("mseed", 0) % 3 != 0:
+        return
+    o = case["oracle"]
+    if o["type"] == "boxes":
+        s, R, t = float(o["frame"][0]), np.array(o["frame"][1], dtype=float), np.array(o["frame"][2], dtype=float)
+        Q0 = s * (Q @ R)
+        S = cx(ctx.driver.F("spec.ff.boxes", L([[np.array(lo, dtype=float), np.array(hi, dtype=float)] for lo, hi in o["boxes"]]),
+                            L(list(Q0)), rho))
+        S = s ** 3 * np.exp(-1j * (Q @ t)) * S
+        if np.any(np.abs(S - E) > tol):
+            ctx.disagree("spec.ff.boxes:vs-oracle", case, [S, E])
+    elif o["type"] == "tets":
+        tets, _, _ = gen.cone_tets(np.array(case["vertices"], dtype=float))
+        if len(tets) > 40:
+            return
+        T = np.asarray(tets)
+        vol6 = np.abs(np.einsum("mi,mi->m", T[:, 1] - T[:, 0], np.cross(T[:, 2] - T[:, 0], T[:, 3] - T[:, 0])))
+        S = cx(ctx.driver.F("spec.ff.tets", L([np.asarray(x) for x in tets]), L(list(Q)), rho))
+        for i, q in enumerate(Q):
+            a = T @ q                                        # (M,4) phases; the closed form needs them distinct
+            d = np.abs(a[:, :, None] - a[:, None, :]) + np.eye(4)[None] * 1e300
+            sep = d.min()
+            if sep < 0.3:
+                continue
+            prod = np.prod(np.where(np.eye(4)[None] > 0, 1.0, np.abs(a[:, :, None] - a[:, None, :])), axis=2)
+            amp = float(np.sum(vol6[:, None] / prod)) * abs(rho)
+            if abs(S[i] - E[i]) > tol[i] + 64 * EPS * amp * (1 + float(np.max(np.abs(a)))):
+                ctx.disagree("spec.ff.tets:vs-oracle", case, [i, S[i], E[i]])
+                break
 
 
 def consequences(ctx, cls, case, Q, rho, F, tol, win, call, shifted, rmax, measure, phase_arg, shifted_bounds):
@@ -730,6 +764,11 @@ def eval_polygon(ctx, case):
     if not classify(ctx, cls, case, F, E, tol, win, zero_mask | (np.einsum("ij,ij->i", qpar, qpar) == 0), rho,
                     "amplitude differs from density * integral of exp(-i q_par.r) over the polygon"):
         return
+    if case.get("mseed", 0) % 3 == 0:      # Lean Spec.polygonFT (Green boundary form) against the triangle-fan oracle
+        S = cx(ctx.driver.F("spec.ff.polygon", L(list(V)), nz, L(list(Q)), rho))
+        okq = np.einsum("ij,ij->i", qpar, qpar) > WIN
+        if np.any(np.abs(S - E)[okq] > tol[okq]):
+            ctx.disagree("spec.ff.polygon:vs-oracle", case, [S, E])
     # orientation independence: same region, other vertex direction / normal conventions
     for verts, nrm, tag in ((V[::-1], None, "reversed-default"), (V[::-1], nz, "reversed+n"), (V[::-1], -nz, "reversed-n"),
                             (V, nz, "same+n"), (V, -nz, "same-n"), (np.roll(V, -1, axis=0), normal, "rolled")):
@@ -796,6 +835,9 @@ def eval_sphere(ctx, case):
     if not classify(ctx, cls, case, F, E, tol, win, qq == 0, rho,
                     "amplitude differs from density * integral of exp(-i q.r) over the ball"):
         return
+    S = cx(ctx.driver.F("spec.ff.ball", r, c, L(list(Q)), rho))       # Lean Spec.ballFT against scipy's Bessel form
+    if np.any(np.abs(S - E) > tol):
+        ctx.disagree("spec.ff.ball:vs-oracle", case, [S, E])
     call = lambda QQ, d: np.array(s.compute_form_factor_amplitude(QQ, density=d), dtype=complex)   # noqa: E731
     consequences(ctx, cls, case, Q, rho, F, tol, win, call, lambda t: Sphere(r, c + t), rmax, vol,
                  lambda QQ, t: QQ @ t, lambda t: (win,))
@@ -874,9 +916,27 @@ def make_case(ctx, which):
     return case
 
 
+def witness_cases():
+    """the kernel-checked counter-examples of Props/C12.lean (`polygon_ff_translate_fails`,
+    `polyhedron_ff_translate_fails`): unit square / unit cube moved by t = (20000 pi, 0, 0), q = (5e-5, 0, 0).
+    The Fourier transform is minus the one at the origin; the code returns the plain area / volume."""
+    t = np.array([20000 * np.pi, 0.0, 0.0])
+    sq = np.array([[0, 0, 0], [1, 0, 0], [1, 1, 0], [0, 1, 0]], dtype=float) + t
+    cube = np.array(list(itertools.product([0.0, 1.0], repeat=3))) + t
+    common = {"q": [[5e-5, 0.0, 0.0]], "q_classes": ["witness"], "density": 1.0, "mseed": 1}
+    return [dict(common, shape="polygon", vertices=sq.tolist(), normal=[0.0, 0.0, 1.0], plane_normal=[0.0, 0.0, 1.0],
+                 info={"kind": "polygon:lean-witness", "clockwise": False, "normal_mode": "explicit", "n": 4}),
+            dict(common, shape="convex", vertices=cube.tolist(), info={"kind": "lean-witness"},
+                 oracle={"type": "boxes", "boxes": [[[0, 0, 0], [1, 1, 1]]], "frame": [1.0, np.eye(3).tolist(), t.tolist()]})]
+
+
 def run(ctx):
+    for case in witness_cases():
+        ctx.count("kind:lean-witness")
+        ctx.case(case)
+        eval_case(ctx, case)
     mix = (["convex"] * 5 + ["box"] * 2 + ["voxel"] * 2 + ["prism"] * 2 + ["polygon"] * 6 + ["sphere"] * 3)
-    n = ctx.budget(120, 3000)
+    n = ctx.budget(240, 3000)
     for i in range(n):
         case = make_case(ctx, mix[i % len(mix)])
         ctx.case(case, nontrivial=bool(np.any(np.array(case["q"]) != 0)))
